@@ -1,6 +1,9 @@
 import IstioModel.C20.NatOutput
 import IstioModel.C20.NatPrerouting
 import IstioModel.C20.Fate
+import IstioModel.C20.V46
+import IstioModel.C20.WellFormed
+import IstioModel.C20.Parse
 
 /-!
 C20 - the property theorems.
@@ -39,11 +42,6 @@ theorem nat_output_no_chain_loop (c : Config) (p : Packet) (d : Nat) (h : famOn 
       all_goals simp
 
 /-! ## no_loop -/
-
-theorem proxyOwned_iff_identities (c : Config) (p : Packet) :
-    proxyOwned c p = c.identities.any (OwnerId.owns p) := by
-  simp only [proxyOwned, Config.identities, List.any_append, List.any_map, Function.comp_def, OwnerId.owns,
-    List.contains_eq_any_beq]
 
 /-- The identity blocks decide every packet owned by one of the identities, and send it to the inbound
     listener only if it is a TCP packet on `lo` to a non-loopback address. -/
@@ -123,10 +121,6 @@ theorem identityWalk_app (c : Config) (p : Packet) (l : List OwnerId) (h : l.any
     simp only [List.any_cons, Bool.or_eq_false_iff] at h
     simp only [identityWalk, h.1, Bool.false_eq_true, if_false, ih h.2]
     by_cases hb : loopbackBypass c p = true <;> simp [hb]
-
-theorem hasProxyIdentity_iff (c : Config) : hasProxyIdentity c = !c.identities.isEmpty := by
-  unfold hasProxyIdentity Config.identities
-  cases c.proxyUIDs <;> cases c.proxyGIDs <;> simp
 
 /-- **Application outbound traffic, complete form**: for a packet NOT owned by the proxy, nat/OUTPUT
     redirects to the DNS agent iff `outboundDNSCaptured`, else to the outbound proxy port iff
@@ -369,33 +363,6 @@ theorem fate_correct (c : Config) (p : Packet) (d : Nat) :
         try rfl
       · simp [hct]
 
-theorem natSpec_ne_loop (c : Config) (p : Packet) : natSpec c p ≠ .loop := by
-  unfold natSpec natOutputSpec natPreroutingSpec
-  repeat' split
-  all_goals simp
-
-theorem mangleSpec_ne_loop (c : Config) (p : Packet) : mangleSpec c p ≠ .loop := by
-  unfold mangleSpec
-  split
-  · rcases mangleOutputSpec_shape c p with ⟨m, h⟩; simp [h]
-  · rcases manglePreroutingSpec_shape c p with h | ⟨m, cm, h | h⟩ <;> simp [h]
-
-theorem specStep_loop (c : Config) (f : Fate) (t : Table) (h : f.loop = false) : (specStep c f t).loop = false := by
-  unfold specStep
-  split
-  · exact h
-  · split
-    · exact h
-    · cases t
-      · simp [h]
-      · have hv := mangleSpec_ne_loop c f.pkt
-        generalize mangleSpec c f.pkt = v at hv ⊢
-        cases v <;> simp_all
-      · have hv := natSpec_ne_loop c f.pkt
-        generalize natSpec c f.pkt = v at hv ⊢
-        cases v <;> simp_all
-      · simp [h]
-
 /-- No generated rule set contains a chain cycle: the jump stack (two levels suffice) never overflows,
     for any configuration, family, hook and packet. -/
 theorem never_chain_loop (c : Config) (p : Packet) (d : Nat) :
@@ -408,13 +375,6 @@ theorem never_chain_loop (c : Config) (p : Packet) (d : Nat) :
     exact specStep_loop _ _ _ (specStep_loop _ _ _ (specStep_loop _ _ _ rfl))
 
 /-! ## Whole-hook corollaries (REDIRECT mode, first packet of a connection) -/
-
-/-- The nat policy only ever accepts the packet unchanged or redirects it. -/
-theorem natSpec_shape (c : Config) (p : Packet) :
-    natSpec c p = .accept p ∨ ∃ port, natSpec c p = .redirect port := by
-  unfold natSpec natOutputSpec natPreroutingSpec
-  repeat' split
-  all_goals first | exact Or.inl rfl | exact Or.inr ⟨_, rfl⟩
 
 /-- In REDIRECT mode the first packet of a connection is decided by the nat table alone. -/
 theorem fate_redirect_mode (c : Config) (p : Packet) (d : Nat) (hon : famOn c p.fam = true)
@@ -495,25 +455,6 @@ theorem non_new_untouched (c : Config) (p : Packet) (d : Nat) (hmode : c.tproxy 
         show (Table.mangle == Table.nat) = false from rfl]
 
 /-! ## Across hooks: traffic on `lo` -/
-
-/-- Shape of the whole-hook policy at PREROUTING for a packet arriving on `lo`: nat is not consulted,
-    so the fate is what mangle decides. -/
-theorem specFate_lo_prerouting (c : Config) (p : Packet) (hh : p.hook = .prerouting) (hlo : p.inIf = "lo")
-    (hv : (p.v6 && !c.enableIPv6) = false) :
-    specFate c p =
-      match manglePreroutingSpec c p with
-      | .accept q => { pkt := q }
-      | .drop => { dropped := true, pkt := p }
-      | .tproxy port q => { tproxy := some port, pkt := q }
-      | .redirect port => { redirect := some port, pkt := p }
-      | .loop => { loop := true, pkt := p } := by
-  simp only [specFate, hv, Bool.false_eq_true, if_false, List.foldl, specStep, Bool.or_self,
-    show (Table.raw == Table.nat) = false from rfl, show (Table.mangle == Table.nat) = false from rfl,
-    Bool.false_and, mangleSpec, hh]
-  rcases manglePreroutingSpec_shape c p with hs | ⟨m, cm, hs | hs⟩
-  · simp [hs]
-  · simp [hs, natConsulted, hlo, hh]
-  · simp [hs, natConsulted, hlo, hh]
 
 /-- **A packet arriving on `lo` is never redirected** (any mode, any configuration): its connection got
     its NAT binding at nat/OUTPUT, nat/PREROUTING is not consulted. In particular traffic the proxy
@@ -790,120 +731,38 @@ theorem tproxy_tunnel_port_not_exempt (c : Config) (p : Packet) (d : Nat) (h : f
   have hx' : ¬ p.dport ∈ c.inboundExclude := by simpa using hx
   simp [tproxyPortSelected, hall, hx', hdst]
 
+/-- tproxy_inbound_exact for the whole hook (TPROXY mode, ordinary interface, not kube-virt). -/
+theorem tproxy_inbound_exact_fate (c : Config) (p : Packet) (d : Nat) (h : famOn c p.fam = true)
+    (hmode : c.tproxy = true) (hh : p.hook = .prerouting) (htcp : p.proto = .tcp) (hnew : p.ctstate = .new)
+    (hif : c.exclIfs.contains p.inIf = false) (hlo : p.inIf ≠ "lo") (hm : p.mark ≠ c.tproxyMark)
+    (hkv : kubeVirt c p = false) :
+    traverse (d + 2) (rulesOf c p.fam) p =
+      if tproxyPortSelected c p && !loopbackDst c p
+      then { tproxy := some c.inboundCapturePort, pkt := { p with mark := c.tproxyMark } } else { pkt := p } := by
+  rw [fate_correct]
+  have hv : (p.v6 && !c.enableIPv6) = false := by
+    unfold famOn at h
+    cases hv : p.v6 <;> cases he : c.enableIPv6 <;> simp [Packet.fam, hv, he] at h ⊢
+  have hmg := tproxy_inbound_exact c p d h hmode htcp hnew hif hlo hm
+  rw [mangle_prerouting_correct c p d h] at hmg
+  have hlo' : (p.inIf == "lo") = false := by simpa using hlo
+  have hn : ∀ q : Packet, q.hook = .prerouting → q.inIf = p.inIf → natSpec c q = .accept q := by
+    intro q hq1 hq2
+    have : kubeVirt c q = false := by rw [← hkv]; simp [kubeVirt, hq2]
+    simp [natSpec, hq1, natPreroutingSpec, this, hmode]
+  simp only [specFate, hv, Bool.false_eq_true, if_false, List.foldl, specStep, Bool.or_self,
+    show (Table.raw == Table.nat) = false from rfl, show (Table.mangle == Table.nat) = false from rfl,
+    Bool.false_and, mangleSpec, hh, hmg]
+  have hnc : natConsulted Hook.prerouting CtState.new p.inIf = true := by simp [natConsulted, hlo']
+  by_cases hs : (tproxyPortSelected c p && !loopbackDst c p) = true
+  · simp only [hs, if_true, hnew, hnc, Bool.not_true, Bool.and_false, Bool.false_eq_true, if_false]
+    rw [hn ({ p with hook := Hook.prerouting, ctstate := CtState.new, mark := c.tproxyMark }) rfl rfl]
+    simp
+  · simp only [hs, Bool.false_eq_true, if_false, hnew, hnc, Bool.not_true, Bool.and_false]
+    rw [hn p hh rfl]
+    simp [hh, hnc]
+
 /-! ## v4_v6_same_policy -/
-
-/-- A verdict without the packet's identity: what happened, and the marks the packet leaves with. -/
-inductive Outcome
-  | pass (mark connmark : Nat)
-  | drop
-  | redirect (port : Nat)
-  | tproxy (port mark connmark : Nat)
-  | loop
-  deriving DecidableEq, Repr
-
-def Verdict.out : Verdict → Outcome
-  | .accept p => .pass p.mark p.connmark
-  | .drop => .drop
-  | .redirect port => .redirect port
-  | .tproxy port p => .tproxy port p.mark p.connmark
-  | .loop => .loop
-
-/-- The same connection attempt seen in the two families: every field that is not an address agrees. -/
-structure SameButAddrs (p4 p6 : Packet) : Prop where
-  fam4 : p4.v6 = false
-  fam6 : p6.v6 = true
-  hook : p6.hook = p4.hook
-  proto : p6.proto = p4.proto
-  sport : p6.sport = p4.sport
-  dport : p6.dport = p4.dport
-  inIf : p6.inIf = p4.inIf
-  outIf : p6.outIf = p4.outIf
-  uid : p6.uid = p4.uid
-  gid : p6.gid = p4.gid
-  ctstate : p6.ctstate = p4.ctstate
-  mark : p6.mark = p4.mark
-  connmark : p6.connmark = p4.connmark
-
-/-- The address embedding, stated by what it must preserve: the configuration classifies the two
-    packets' addresses alike (loopback range `HostIPv4LoopbackCidr` ~ `::1/128`, passthrough source
-    `127.0.0.6` ~ `::6`, and membership in the family's share of the include / exclude / DNS lists). -/
-structure AddrClassesAgree (c : Config) (p4 p6 : Packet) : Prop where
-  lo : loopbackDst c p6 = loopbackDst c p4
-  src : src6.contains p6.src = src4.contains p4.src
-  excl : dstExcluded c p6 = dstExcluded c p4
-  incl : dstIncluded c p6 = dstIncluded c p4
-  dns : c.dnsV6.contains p6.dst = c.dnsV4.contains p4.dst
-
-section
-variable {c : Config} {p4 p6 : Packet} (hs : SameButAddrs p4 p6) (ha : AddrClassesAgree c p4 p6)
-include hs ha
-
-theorem same_isTcp : isTcp p6 = isTcp p4 := by simp [isTcp, hs.proto]
-theorem same_isTcpUdp : isTcpUdp p6 = isTcpUdp p4 := by simp [isTcpUdp, hs.proto]
-theorem same_onLo : onLo p6 = onLo p4 := by simp [onLo, hs.outIf]
-theorem same_inLo : inLo p6 = inLo p4 := by simp [inLo, hs.inIf]
-theorem same_proxyOwned : proxyOwned c p6 = proxyOwned c p4 := by simp [proxyOwned, hs.uid, hs.gid]
-theorem same_outIfExcluded : outIfExcluded c p6 = outIfExcluded c p4 := by simp [outIfExcluded, hs.outIf]
-theorem same_inIfExcluded : inIfExcluded c p6 = inIfExcluded c p4 := by simp [inIfExcluded, hs.inIf]
-theorem same_outPortExcluded : outPortExcluded c p6 = outPortExcluded c p4 := by
-  simp [outPortExcluded, same_isTcpUdp hs ha, hs.dport]
-theorem same_outPortIncluded : outPortIncluded c p6 = outPortIncluded c p4 := by
-  simp [outPortIncluded, same_isTcp hs ha, hs.dport]
-theorem same_fromPassthrough : fromPassthrough p6 = fromPassthrough p4 := by
-  simp [fromPassthrough, same_onLo hs ha, hs.fam4, hs.fam6, ha.src]
-theorem same_ownerGroup : ownerGroupCaptured c p6 = ownerGroupCaptured c p4 := by
-  simp [ownerGroupCaptured, hs.gid]
-theorem same_loopbackBypass : loopbackBypass c p6 = loopbackBypass c p4 := by
-  simp [loopbackBypass, same_onLo hs ha, same_isTcp hs ha, hs.dport]
-theorem same_dnsCaptured : dnsCaptured c p6 = dnsCaptured c p4 := by
-  simp only [dnsCaptured, same_isTcpUdp hs ha, hs.dport, hs.fam4, hs.fam6, ha.dns, if_true, Bool.false_eq_true, if_false]
-theorem same_kubeVirt : kubeVirt c p6 = kubeVirt c p4 := by simp [kubeVirt, hs.inIf]
-theorem same_inboundCaptured : inboundCaptured c p6 = inboundCaptured c p4 := by
-  simp [inboundCaptured, inboundPortCaptured, same_isTcp hs ha, same_inIfExcluded hs ha, hs.dport]
-theorem same_tproxyPortSelected : tproxyPortSelected c p6 = tproxyPortSelected c p4 := by
-  simp [tproxyPortSelected, hs.dport]
-theorem same_tproxyBypass : tproxyBypass c p6 = tproxyBypass c p4 := by
-  simp [tproxyBypass, hs.mark, same_inLo hs ha, hs.fam4, hs.fam6, ha.src]
-
-theorem same_identityWalk (l : List OwnerId) : identityWalk c p6 l = identityWalk c p4 l := by
-  induction l with
-  | nil => rfl
-  | cons o rest ih =>
-    have ho : o.owns p6 = o.owns p4 := by cases o <;> simp [OwnerId.owns, hs.uid, hs.gid]
-    have hsc : selfCall c p6 o = selfCall c p4 o := by
-      cases o <;> simp [selfCall, same_onLo hs ha, ha.lo, same_isTcp hs ha, hs.dport]
-    simp only [identityWalk, ho, hsc, same_loopbackBypass hs ha, ih]
-
-/-- The nat-table policy gives the two packets the same outcome. -/
-theorem same_natSpec : (natSpec c p6).out = (natSpec c p4).out := by
-  unfold natSpec
-  rw [hs.hook]
-  cases p4.hook
-  · -- prerouting
-    simp only [natPreroutingSpec, same_kubeVirt hs ha, same_isTcp hs ha, ha.incl, same_inboundCaptured hs ha]
-    repeat' split
-    all_goals simp [Verdict.out, hs.mark, hs.connmark]
-  · simp only [natOutputSpec, same_outIfExcluded hs ha, same_outPortExcluded hs ha, same_fromPassthrough hs ha,
-      same_identityWalk hs ha, same_ownerGroup hs ha, same_dnsCaptured hs ha, ha.lo, ha.excl, same_isTcp hs ha,
-      same_outPortIncluded hs ha, ha.incl]
-    repeat' split
-    all_goals simp [Verdict.out, hs.mark, hs.connmark]
-
-/-- The mangle-table policy gives the two packets the same outcome. -/
-theorem same_mangleSpec : (mangleSpec c p6).out = (mangleSpec c p4).out := by
-  unfold mangleSpec
-  rw [hs.hook]
-  cases p4.hook
-  · simp only [manglePreroutingSpec, same_inIfExcluded hs ha, hs.ctstate, same_isTcp hs ha, hs.mark,
-      same_tproxyBypass hs ha, same_tproxyPortSelected hs ha, ha.lo]
-    repeat' split
-    all_goals simp [Verdict.out, hs.mark, hs.connmark]
-  · simp only [mangleOutputSpec, same_outIfExcluded hs ha, same_isTcp hs ha, same_onLo hs ha, hs.mark, ha.lo,
-      same_proxyOwned hs ha, hs.connmark]
-    repeat' split
-    all_goals simp [Verdict.out, hs.mark, hs.connmark]
-
-end
 
 /-- **v4_v6_same_policy.** With IPv6 enabled, the ip6tables rule set decides the IPv6 image of a packet
     exactly as the iptables rule set decides the IPv4 packet - same redirect port, same TPROXY port, same
@@ -929,6 +788,142 @@ theorem v4_v6_same_policy (c : Config) (p4 p6 : Packet) (d : Nat) (he : c.enable
   · exact ⟨by rw [nat_output_correct c p6 d h6, nat_output_correct c p4 d h4]; exact n,
            by rw [mangle_output_correct c p6 (d + 1) h6, mangle_output_correct c p4 (d + 1) h4]; exact m⟩
 
+
+/-- **v4_v6_same_policy, whole hook**: the complete fates agree (drop, TPROXY port, redirect port, final
+    marks). The address-class hypotheses are assumed for this pair of packets; they are what the
+    embedding 127.0.0.1/32 ~ ::1/128, 127.0.0.6 ~ ::6 (and list-wise images) must provide. -/
+theorem v4_v6_same_fate (c : Config) (p4 p6 : Packet) (d : Nat) (he : c.enableIPv6 = true)
+    (hs : SameButAddrs p4 p6) (ha : AddrClassesAgree c p4 p6) :
+    (traverse (d + 2) (rulesOf c .v6) p6).view = (traverse (d + 2) (rulesOf c .v4) p4).view := by
+  have f4 : p4.fam = .v4 := by simp [Packet.fam, hs.fam4]
+  have f6 : p6.fam = .v6 := by simp [Packet.fam, hs.fam6]
+  rw [← f4, ← f6, fate_correct, fate_correct]
+  have hv4 : (p4.v6 && !c.enableIPv6) = false := by simp [hs.fam4]
+  have hv6 : (p6.v6 && !c.enableIPv6) = false := by simp [he]
+  have hm := same_mangleSpec hs ha
+  simp only [specFate, hv4, hv6, Bool.false_eq_true, if_false, List.foldl, specStep, Bool.or_self,
+    show (Table.raw == Table.nat) = false from rfl, show (Table.mangle == Table.nat) = false from rfl,
+    Bool.false_and, beq_self_eq_true, Bool.true_and]
+  have hnc : natConsulted p6.hook p6.ctstate p6.inIf = natConsulted p4.hook p4.ctstate p4.inIf := by
+    rw [hs.hook, hs.ctstate, hs.inIf]
+  unfold mangleSpec at hm ⊢
+  rw [hs.hook] at hm ⊢
+  cases hh : p4.hook <;> simp only [hh] at hm ⊢
+  · rcases manglePreroutingSpec_shape c p4 with h4 | ⟨m4, cm4, h4 | h4⟩ <;>
+    rcases manglePreroutingSpec_shape c p6 with h6 | ⟨m6, cm6, h6 | h6⟩ <;>
+    simp only [h4, h6, Verdict.out] at hm ⊢ <;> try (simp at hm; done)
+    · simp [Fate.view, hs.mark, hs.connmark]
+    · injection hm with hm1 hm2
+      subst hm1 hm2
+      rcases same_remark hs ha m6 cm6 with ⟨hs', ha'⟩
+      simp only [Bool.or_self, Bool.false_eq_true, if_false, hnc]
+      by_cases hc : natConsulted p4.hook p4.ctstate p4.inIf = true
+      · simp only [hc, Bool.not_true, Bool.false_eq_true, if_false]
+        exact same_natStep hs' ha' none
+      · simp [hc, Fate.view]
+    · injection hm with hm0 hm1 hm2
+      subst hm1 hm2
+      rcases same_remark hs ha m6 cm6 with ⟨hs', ha'⟩
+      simp only [Bool.or_self, Bool.false_eq_true, if_false, hnc]
+      by_cases hc : natConsulted p4.hook p4.ctstate p4.inIf = true
+      · simp only [hc, Bool.not_true, Bool.false_eq_true, if_false]
+        exact same_natStep hs' ha' (some c.inboundCapturePort)
+      · simp [hc, Fate.view]
+  · rcases mangleOutputSpec_shape c p4 with ⟨m4, h4⟩
+    rcases mangleOutputSpec_shape c p6 with ⟨m6, h6⟩
+    simp only [h4, h6, Verdict.out] at hm ⊢
+    injection hm with hm1 hm2
+    subst hm1
+    rcases same_remark hs ha m6 p4.connmark with ⟨hs', ha'⟩
+    simp only [Bool.or_self, Bool.false_eq_true, if_false, hnc, hs.connmark]
+    by_cases hc : natConsulted p4.hook p4.ctstate p4.inIf = true
+    · simp only [hc, Bool.not_true, Bool.false_eq_true, if_false]
+      exact same_natStep hs' ha' none
+    · simp [hc, Fate.view, hs.connmark]
+
+/-! ## The restore input is accepted -/
+
+/-- **The restore input is always well-formed**: for every configuration (whose loopback CIDR is IPv4, as
+    Validate demands) and both families, every `-I` position exists when its command runs, every jump
+    goes to a declared user chain, every user chain receiving a rule is declared, and every address
+    literal is of the table's family - iptables-restore / ip6tables-restore accept the whole input, so
+    `chainOf` is its meaning. -/
+theorem rulesOf_wellFormed (c : Config) (f : Fam) (hlo : c.loCidr.v6 = false) :
+    wellFormed f (rulesOf c f) = true := by
+  unfold wellFormed
+  simp only [Bool.and_eq_true, List.all_eq_true]
+  refine ⟨⟨⟨?_, ?_⟩, ?_⟩, ?_⟩
+  · intro t _ ch _
+    rw [filter_rulesOf]
+    cases hon : famOn c f
+    · rfl
+    · simp only [if_true]
+      by_cases hmi : t = .mangle ∧ ch = .ISTIO_INBOUND
+      · rcases hmi with ⟨rfl, rfl⟩
+        rw [(sel_compile_mangle c f).2.2.1, insertsInRange_append _ _ _ (allAppend_mgInboundBody c)]
+        cases c.tproxy <;> simp [mgInboundHead, insertsInRange]
+      · apply insertsInRange_of_append_or_1
+        intro r hr
+        simp only [sel, List.mem_filter, List.mem_map, Bool.and_eq_true, beq_iff_eq] at hr
+        rcases hr with ⟨⟨e, ⟨he, _⟩, rfl⟩, ht, hc⟩
+        have := (List.all_eq_true.mp (compile_opOK c)) e he
+        simp only [okE, opOK, Bool.and_eq_true, Bool.or_eq_true, beq_iff_eq] at this
+        rcases this.1 with (h | h) | h
+        · exact Or.inl h
+        · exact Or.inr h.2
+        · exact absurd ⟨ht ▸ h.1, hc ▸ h.2⟩ hmi
+  · intro r hr
+    rcases mem_rulesOf' c f r hr with ⟨e, he, _, rfl⟩
+    have := (List.all_eq_true.mp (compile_opOK c)) e he
+    simp only [okE, jumpOK, Bool.and_eq_true] at this
+    cases ht : e.rule.target <;> simp only []
+    rename_i ch
+    have hb : ch.builtin = false := by simpa [ht] using this.2
+    simp only [Bool.and_eq_true, Bool.not_eq_true', List.contains_iff_mem]
+    refine ⟨hb, (mem_declaredChains _ _).2 ⟨hb, Or.inr ⟨e.rule, hr, by simp [Rule.jumpKey, ht]⟩⟩⟩
+  · intro r hr
+    cases hb : r.chain.builtin
+    · simp only [Bool.false_or, List.contains_iff_mem]
+      exact (mem_declaredChains _ _).2 ⟨hb, Or.inl ⟨r, hr, rfl⟩⟩
+    · rfl
+  · intro r hr
+    rcases mem_rulesOf' c f r hr with ⟨e, he, hre, rfl⟩
+    have := (List.all_eq_true.mp (compile_famOK c hlo)) e he
+    simp only [famOK, Bool.and_eq_true, Bool.or_eq_true, Bool.not_eq_true'] at this
+    cases f
+    · rcases this.1 with h | h
+      · simp [hre] at h
+      · intro m hm x hx
+        exact List.all_eq_true.mp (List.all_eq_true.mp h m hm) x hx
+    · rcases this.2 with h | h
+      · simp [hre] at h
+      · intro m hm x hx
+        exact List.all_eq_true.mp (List.all_eq_true.mp h m hm) x hx
+
+theorem validLoopbackCidr_v4 (s : String) (lo : Cidr) (h : validLoopbackCidr s = some lo) : lo.v6 = false := by
+  unfold validLoopbackCidr at h
+  split at h
+  · split at h
+    · rename_i hc
+      injection h with h
+      subst h
+      simp only [Bool.and_eq_true, Bool.not_eq_true'] at hc
+      exact hc.1.1.1
+    · simp at h
+  · simp at h
+
+/-- Every configuration accepted by `RawConfig.parse` (i.e. by Config.Validate) has an IPv4 loopback
+    CIDR: the hypothesis of `rulesOf_wellFormed` holds for everything the real code accepts. -/
+theorem parse_loCidr_v4 (r : RawConfig) (c : Config) (h : r.parse = .ok c) : c.loCidr.v6 = false := by
+  unfold RawConfig.parse at h
+  split at h
+  · simp at h
+  · split at h
+    · simp at h
+    · rename_i lo hlo
+      repeat' split at h
+      all_goals first | (simp at h; done) | skip
+      all_goals (injection h with h; subst h; exact validLoopbackCidr_v4 _ _ hlo)
 
 /-! ## Non-vacuity: concrete configurations and packets meeting the hypotheses, and the recorded corners -/
 
@@ -999,5 +994,58 @@ example : SameButAddrs exApp { exApp with v6 := true, src := 1, dst := 425419561
 example : AddrClassesAgree { exCfg with enableIPv6 := true } exApp
     { exApp with v6 := true, src := 1, dst := 42541956123769884636017138956568135816 } :=
   ⟨by decide, by decide, by decide, by decide, by decide⟩
+
+/-! ### KUBE_VIRT_INTERFACES (outside the property's configuration grammar; recorded) -/
+
+/-- `exCfg` plus a kube-virt interface eth1. -/
+def kvCfg : Config := { exCfg with kubeVirtIfs := ["eth1"] }
+
+/-- A connection arriving from a VM on eth1. -/
+def kvPkt : Packet :=
+  { hook := .prerouting, v6 := false, proto := .tcp, src := 3232237319, dst := 134744072, sport := 40000, dport := 80,
+    inIf := "eth1", outIf := "", uid := "", gid := "", ctstate := .new, mark := 0, connmark := 0 }
+
+/-- Observation: traffic entering on a KUBE_VIRT_INTERFACES interface is "treated as outbound" by the
+    INCLUDED ranges only: none of the outbound exclusions applies to it - an excluded destination range
+    (10.0.0.0/8), an excluded port (3306) and a loopback destination are all redirected to 15001. -/
+theorem kube_virt_ignores_exclusions_witness :
+    (fateOf kvCfg { kvPkt with dst := 168364297 }).redirect = some 15001 ∧
+    (fateOf kvCfg { kvPkt with dport := 3306 }).redirect = some 15001 ∧
+    (fateOf kvCfg { kvPkt with dst := 2130706433 }).redirect = some 15001 ∧
+    -- the same three leaving the pod's own application are NOT captured
+    (fateOf kvCfg { exApp with dst := 168364297 }).redirect = none ∧
+    (fateOf kvCfg { exApp with dport := 3306 }).redirect = none ∧
+    (fateOf kvCfg { exApp with dst := 2130706433 }).redirect = none := by decide
+
+/-- Observation: in TPROXY mode a kube-virt packet is captured twice - handed to TPROXY on the inbound
+    port by mangle (which has no kube-virt short-circuit) AND redirected to the outbound port by nat. -/
+theorem kube_virt_tproxy_double_capture_witness :
+    (fateOf { kvCfg with tproxy := true } kvPkt).tproxy = some 15006 ∧
+    (fateOf { kvCfg with tproxy := true } kvPkt).redirect = some 15001 := by decide
+
+/-! ### Non-vacuity of the cross-hook theorem -/
+
+/-- The application talking to its own address over `lo`: untouched at OUTPUT and again at PREROUTING. -/
+example : loJourney stackDepth (rulesOf exCfg .v4) { exApp with outIf := "lo", dst := 167838211 } 2130706433 =
+    ({ pkt := { exApp with outIf := "lo", dst := 167838211 } },
+     some { pkt := { exApp with hook := .prerouting, inIf := "lo", outIf := "", dst := 167838211 } }) := by decide
+
+/-- REDIRECT mode, the proxy calling the application's address: sent to 15006 at OUTPUT, and NOT captured
+    again when it comes back in through `lo` (now addressed to 127.0.0.1:15006). -/
+example : ((loJourney stackDepth (rulesOf exCfg .v4) { exApp with uid := "1337", outIf := "lo", dst := 167838211 } 2130706433).2.map
+    (fun f => (f.redirect, f.tproxy))) = some (none, none) := by decide
+
+/-- TPROXY mode, the same call-to-self: nat/OUTPUT still sends it to 15006 (now addressed to
+    127.0.0.1, so TPROXY's `! -d 127.0.0.1/32` leaves it alone on re-entry); it carries mark 1338. -/
+example : ((loJourney stackDepth (rulesOf { exCfg with tproxy := true } .v4)
+    { exApp with uid := "1337", outIf := "lo", dst := 167838211 } 2130706433).2.map
+    (fun f => (f.redirect, f.tproxy, f.pkt.mark))) = some (none, none, 1338) := by decide
+
+/-- TPROXY mode, the proxy's call-to-self on the tunnel port (not redirected at OUTPUT): marked 1338 at
+    OUTPUT and handed to TPROXY when it comes back in - the one exception `lo_journey_never_loops` allows. -/
+example : ((loJourney stackDepth (rulesOf { exCfg with tproxy := true } .v4)
+    { exApp with uid := "1337", outIf := "lo", dst := 167838211, dport := 15008 } 2130706433).2.map
+    (fun f => (f.redirect, f.tproxy, f.pkt.mark))) = some (none, some 15006, 1337) := by decide
+
 
 end IstioModel.C20
